@@ -119,7 +119,7 @@ class ConstraintKMeans(KMeans):
         try:
             if self.kmeans0:
                 KMeans.fit(self, X, y, sample_weight=sample_weight)
-                state = None
+                state = self._seeded_state()
             else:
                 state = numpy.random.RandomState(self.random_state)
                 labels = state.randint(0, self.n_clusters, X.shape[0], dtype=numpy.int32)
@@ -141,6 +141,15 @@ class ConstraintKMeans(KMeans):
             learning_rate=self.learning_rate,
             history=self.history,
         )
+
+    def _seeded_state(self):
+        """
+        Returns a random state built from *random_state* if it is an integer
+        (the results then do not depend on numpy global seed), None otherwise.
+        """
+        if isinstance(self.random_state, (int, numpy.integer)):
+            return numpy.random.RandomState(self.random_state)
+        return None
 
     def constraint_kmeans(
         self,
@@ -193,7 +202,10 @@ class ConstraintKMeans(KMeans):
         if self.weights_ is None:
             if self.balanced_predictions:
                 labels, _, __ = constraint_predictions(
-                    X, self.cluster_centers_, strategy=self.strategy + "_p"
+                    X,
+                    self.cluster_centers_,
+                    strategy=self.strategy + "_p",
+                    state=self._seeded_state(),
                 )
                 return labels
             return KMeans.predict(self, X)
